@@ -87,6 +87,11 @@ func (rp *nativeReplayer) confirm(path string, rf ReplayFile) (bool, string) {
 		if strings.Contains(out, "timeout") || strings.Contains(out, "test timed out") {
 			return true, out
 		}
+	case strings.HasSuffix(rf.Label, "/string-backing-array-overwritten"):
+		// natively the sharing is real: the harness's own comparison (or a crash) shows the damage
+		if strings.Contains(out, "VERIF-ASSERT-FAILED") || strings.Contains(out, "VERIF-PANIC") || strings.Contains(out, "panic:") {
+			return true, out
+		}
 	case strings.HasSuffix(rf.Label, "/deadlock"):
 		if strings.Contains(out, "all goroutines are asleep") || strings.Contains(out, "test timed out") || strings.Contains(out, "timeout") {
 			return true, out
